@@ -151,7 +151,9 @@ func (rl *Shell) Printf(msg string, args ...any) (n int, err error) {
 	n, err = fmt.Printf(msg+"\n", args...)
 
 	// Redisplay the prompt, input line and active helpers.
-	rl.Prompt.PrimaryPrint()
+	// (The display must know that the prompt is printed anew, below the
+	// message: it would otherwise go back up to the old row of the line.)
+	rl.Display.PrintPrimaryPrompt()
 	rl.Display.Refresh()
 
 	return
@@ -171,7 +173,9 @@ func (rl *Shell) PrintTransientf(msg string, args ...any) (n int, err error) {
 	n, err = fmt.Printf(msg+"\n", args...)
 
 	// Redisplay the prompt, input line and active helpers.
-	rl.Prompt.PrimaryPrint()
+	// (The display must know that the prompt is printed anew, below the
+	// message: it would otherwise go back up to the old row of the line.)
+	rl.Display.PrintPrimaryPrompt()
 	rl.Display.Refresh()
 
 	return
